@@ -36,6 +36,19 @@ pub async fn send_all_datagrams(socket: &BatchUdpSocket, bufs: &[&[u8]]) -> std:
     if verif_fail::take(socket.as_raw_fd()) {
         return Err(std::io::Error::other("verif-hooks: injected send failure"));
     }
+    #[cfg(all(feature = "verif-hooks", unix))]
+    if let Some(k) = verif_fail::take_after(socket.as_raw_fd()) {
+        // the first `k` datagrams of this batch go out for real, then the call fails
+        let k = k.min(bufs.len());
+        let mut sent = 0;
+        while sent < k {
+            match socket.send_batch(&bufs[sent..k]).await {
+                Ok(0) | Err(_) => break,
+                Ok(n) => sent += n,
+            }
+        }
+        return Err(std::io::Error::other("verif-hooks: injected partial send failure"));
+    }
     let total = bufs.len();
     let mut sent = 0;
     while sent < total {
@@ -71,8 +84,30 @@ pub mod verif_fail {
         FAIL.with(|f| f.borrow_mut().push(fd));
     }
 
+    thread_local! {
+        static FAIL_AFTER: RefCell<Vec<(RawFd, usize)>> = const { RefCell::new(Vec::new()) };
+    }
+
+    /// The next `send_all_datagrams` on `fd` sends the first `k` datagrams, then fails.
+    pub fn fail_after(fd: RawFd, k: usize) {
+        FAIL_AFTER.with(|f| f.borrow_mut().push((fd, k)));
+    }
+
+    pub fn pending_after() -> Vec<(RawFd, usize)> {
+        FAIL_AFTER.with(|f| f.borrow().clone())
+    }
+
+    pub(super) fn take_after(fd: RawFd) -> Option<usize> {
+        FAIL_AFTER.with(|f| {
+            let mut v = f.borrow_mut();
+            let pos = v.iter().position(|x| x.0 == fd)?;
+            Some(v.remove(pos).1)
+        })
+    }
+
     pub fn clear() {
         FAIL.with(|f| f.borrow_mut().clear());
+        FAIL_AFTER.with(|f| f.borrow_mut().clear());
     }
 
     /// Injections not yet consumed.
